@@ -245,6 +245,16 @@ func finishChains(run *core.Run, outs []*BatchOutcome, opts ChainOpts,
 			}
 			continue
 		}
+		for _, cc := range o.CfgCrash {
+			if cc[1] == "panic" {
+				sig := "analyzer-panic:" + crashSignature(cc[2]) + sigSuffix
+				if !run.IsKnown(sig) {
+					run.Violation(sig, "analyzer crashed under configuration "+cc[0]+" on a generated batch:\n"+cc[2], withRT(o.Files))
+				}
+			} else {
+				run.Inconclusive(fmt.Sprintf("batch %d config %s: child %s", o.Index, cc[0], cc[1]))
+			}
+		}
 		inputs += o.Inputs
 		for _, reps := range o.Reported {
 			for _, r := range reps {
